@@ -244,3 +244,181 @@ Example C07_ex_chain :               (* fresh reps 2, then target (T,4) counted 
         [(Some (mkCrit COUNT_REPS 2), 10%nat); (Some (mkCrit "T" 4), 10%nat)]
   = [Stopped 2 3; Stopped 2 7].
 Proof. vm_compute. reflexivity. Qed.
+
+(* ==================================================================================================
+   C07 over the SF-core interpreter (theories/StopInterp.v, proofs/StopInterpP.v).
+
+   The theorems above abstract an iteration to "the number of rows of the criterion table it
+   creates".  Below that abstraction is discharged: [run_target r sc fuel c] is one call of
+   generate() on the recipe r - the loop of data_generator_runtime.py 437-446 running
+   Interp.iteration and handing the *id counter* of the criterion table to the application object
+   of Stopping.v, as api.py does.  By theorem C01 the counter has advanced, at every iteration
+   boundary, by exactly the number of rows of the table delivered to the output (forward
+   references reserve ids before their rows exist, so this is not true inside an iteration).
+   ================================================================================================== *)
+From SFV Require Import Interp StopInterp.
+From SFV.P Require Import IdsP RefsP StopInterpP.
+
+(* At every iteration boundary of any run (fresh or continued) of any recipe of the fragment, the
+   id counter of a visible table has advanced by exactly the number of its rows this run wrote. *)
+Theorem C07_interp_counter_is_row_count :
+  forall e stmts c k s0 s T,
+    start_ok s0 -> iterations k e stmts c s0 = Ok s -> hidden T = false ->
+    Z.of_nat (length (written T (out s))) = last_id s T - last_id s0 T.
+Proof. exact counter_is_rows. Qed.
+Print Assumptions C07_interp_counter_is_row_count.
+
+(* Fresh run of a recipe with target (T, N): if generate() returns normally, some template of the
+   recipe creates T; whole iterations only were executed - the final state is that of the
+   repetition run of j >= 1 iterations; this run has delivered >= N rows of T; and after every
+   smaller number of whole iterations it had delivered < N (first boundary). *)
+Theorem C07_interp_target_fresh :
+  forall (r : recipe) T N fuel s j,
+    Stopping.proper_table T -> hidden T = false ->
+    run_target r (Some (Stopping.mkCrit T N)) fuel None = Ok (s, j) ->
+    In T (tables_of (r_stmts r)) /\ (1 <= j)%nat /\ run_fresh r j = Ok s /\
+    N <= Z.of_nat (length (written T (out s))) /\
+    forall i si, (1 <= i < j)%nat -> run_fresh r i = Ok si ->
+                 Z.of_nat (length (written T (out si))) < N.
+Proof. exact target_run_fresh. Qed.
+Print Assumptions C07_interp_target_fresh.
+
+(* Continued run: rows are counted from this run's start, i.e. from the counter recorded in the
+   continuation file it was started from. *)
+Theorem C07_interp_target_continued :
+  forall (r : recipe) T N fuel c0 s0 s j,
+    Stopping.proper_table T -> hidden T = false ->
+    (forall U, 0 <= match lookup U (k_ids c0) with Some z => z | None => 0 end) ->
+    load (env_of r) c0 = Ok s0 ->
+    run_target r (Some (Stopping.mkCrit T N)) fuel (Some c0) = Ok (s, j) ->
+    (1 <= j)%nat /\ iterations j (env_of r) (r_stmts r) true s0 = Ok s /\
+    N <= Z.of_nat (length (written T (out s))) /\
+    N <= last_id s T - last_id s0 T /\
+    forall i si, (1 <= i < j)%nat -> iterations i (env_of r) (r_stmts r) true s0 = Ok si ->
+                 Z.of_nat (length (written T (out si))) < N.
+Proof. exact target_run_continued. Qed.
+Print Assumptions C07_interp_target_continued.
+
+(* Hidden criterion tables have no written rows to count; the statement about the counter holds
+   for every table. *)
+Theorem C07_interp_target_counter :
+  forall e stmts c T N fuel mstart s0 s j,
+    Stopping.proper_table T -> mstart_ok mstart s0 T ->
+    run_until fuel e stmts c (Stopping.new_app (Some (Stopping.mkCrit T N))) mstart s0 0 = Ok (s, j) ->
+    (1 <= j)%nat /\ iterations j e stmts c s0 = Ok s /\
+    N <= last_id s T - last_id s0 T /\
+    forall i si, (1 <= i < j)%nat -> iterations i e stmts c s0 = Ok si ->
+                 last_id si T - last_id s0 T < N.
+Proof. exact target_first_boundary_counter. Qed.
+Print Assumptions C07_interp_target_counter.
+
+(* A target that no template of the recipe creates is rejected before the first iteration. *)
+Theorem C07_interp_unknown_target_rejected :
+  forall (r : recipe) T N fuel c,
+    Stopping.proper_table T -> ~ In T (tables_of (r_stmts r)) ->
+    run_target r (Some (Stopping.mkCrit T N)) fuel c = Err (DGE "DataGenNameError").
+Proof. exact unknown_target_rejected. Qed.
+Print Assumptions C07_interp_unknown_target_rejected.
+
+(* Repetition target k >= 1 / no target: the loop is exactly k / one iteration(s) of the recipe. *)
+Theorem C07_interp_reps_exact :
+  forall e stmts c k mstart s fuel,
+    1 <= k -> (Z.to_nat k <= fuel)%nat ->
+    run_until fuel e stmts c (Stopping.new_app (Some (Stopping.mkCrit Stopping.COUNT_REPS k))) mstart s 0 =
+    (do s' <- iterations (Z.to_nat k) e stmts c s; Ok (s', Z.to_nat k)).
+Proof. exact reps_exact_interp. Qed.
+Print Assumptions C07_interp_reps_exact.
+
+Theorem C07_interp_default_one_iteration :
+  forall e stmts c mstart s fuel,
+    (1 <= fuel)%nat ->
+    run_until fuel e stmts c (Stopping.new_app None) mstart s 0 =
+    (do s' <- iterations 1 e stmts c s; Ok (s', 1%nat)).
+Proof. exact default_one_iteration_interp. Qed.
+Print Assumptions C07_interp_default_one_iteration.
+
+(* Every error of a target run is accounted for: the error of one of the recipe's own iterations,
+   or the no-progress error at the end of an iteration that completed without advancing the
+   table's counter, or the model's fuel. *)
+Theorem C07_interp_error_provenance :
+  forall T N mstart e stmts,
+    Stopping.proper_table T ->
+    forall fuel a c s j x,
+      Stopping.a_crit a = Stopping.mkCrit T N -> app_inv a mstart s T ->
+      run_until fuel e stmts c a mstart s j = Err x ->
+      (exists d si, iterations d e stmts c s = Ok si /\ iterations (S d) e stmts c s = Err x) \/
+      (x = Stopping.runtime_error /\ exists d si si',
+          iterations d e stmts c s = Ok si /\ iterations (S d) e stmts c s = Ok si' /\
+          last_id si' T = last_id si T) \/
+      (x = OutOfFuel /\ exists si, iterations fuel e stmts c s = Ok si).
+Proof. exact run_until_err. Qed.
+Print Assumptions C07_interp_error_provenance.
+
+(* ... and the no-progress error IS raised at the first iteration that completes without
+   advancing the counter, provided every earlier boundary advanced it and stayed below the
+   target (otherwise the run would have ended there). *)
+Theorem C07_interp_no_progress :
+  forall T N mstart e stmts,
+    Stopping.proper_table T ->
+    forall d fuel a c s j si si',
+      Stopping.a_crit a = Stopping.mkCrit T N -> app_inv a mstart s T ->
+      (d < fuel)%nat ->
+      iterations d e stmts c s = Ok si -> iterations (S d) e stmts c s = Ok si' ->
+      last_id si' T = last_id si T ->
+      (forall i sa sb, (i < d)%nat -> iterations i e stmts c s = Ok sa -> iterations (S i) e stmts c s = Ok sb ->
+                       last_id sb T <> last_id sa T /\ last_id sb T < startv mstart + N - 1) ->
+      run_until fuel e stmts c a mstart s j = Err Stopping.runtime_error.
+Proof. exact run_until_no_progress. Qed.
+Print Assumptions C07_interp_no_progress.
+
+(* No target run loops forever: N >= 1 iterations of fuel are as good as any larger number,
+   and with fuel N the out-of-fuel answer can only come from one of the recipe's iterations. *)
+Theorem C07_interp_fuel_N_suffices :
+  forall (r : recipe) T N fuel,
+    Stopping.proper_table T -> 1 <= N -> (Z.to_nat N <= fuel)%nat ->
+    run_target r (Some (Stopping.mkCrit T N)) fuel None =
+    run_target r (Some (Stopping.mkCrit T N)) (Z.to_nat N) None.
+Proof. exact target_run_fresh_fuel. Qed.
+Print Assumptions C07_interp_fuel_N_suffices.
+
+Theorem C07_interp_never_exhausts :
+  forall e stmts c T N mstart s0,
+    Stopping.proper_table T -> mstart_ok mstart s0 T -> J s0 -> V s0 -> 1 <= N ->
+    run_until (Z.to_nat N) e stmts c (Stopping.new_app (Some (Stopping.mkCrit T N))) mstart s0 0 = Err OutOfFuel ->
+    exists d si, iterations d e stmts c s0 = Ok si /\ iterations (S d) e stmts c s0 = Err OutOfFuel.
+Proof. exact target_never_exhausts. Qed.
+Print Assumptions C07_interp_never_exhausts.
+
+(* ---- non-vacuity: a recipe whose B rows forward-reference A (ids of A are reserved before the
+   A rows exist), 2 rows of A per iteration ---- *)
+Open Scope string_scope.
+Definition ex7_recipe : recipe :=
+  mkRecipe 3 []
+    [SObj (Tpl "B" None None false [("a", FRef "A")] []);
+     SObj (Tpl "A" None (Some (FLitInt 2)) false [] [])] [].
+
+Example C07_interp_ex_target :       (* target (A, 3): 2 < 3 <= 4, two whole iterations *)
+  match run_target ex7_recipe (Some (Stopping.mkCrit "A" 3)) 3 None with
+  | Ok (s, j) => (j, written "A" (out s), written "B" (out s))
+  | Err _ => (0%nat, [], [])
+  end = (2%nat, [4; 3; 2; 1], [2; 1]).
+Proof. vm_compute. reflexivity. Qed.
+
+Example C07_interp_ex_unknown :
+  run_target ex7_recipe (Some (Stopping.mkCrit "C" 3)) 3 None = Err (DGE "DataGenNameError").
+Proof. vm_compute. reflexivity. Qed.
+
+Example C07_interp_ex_no_progress :  (* count 0: the first iteration creates no A *)
+  match run_target (mkRecipe 3 [] [SObj (Tpl "A" None (Some (FLitInt 0)) false [] [])] [])
+                   (Some (Stopping.mkCrit "A" 1)) 1 None with
+  | Err e => err_eqb e Stopping.runtime_error
+  | Ok _ => false
+  end = true.
+Proof. vm_compute. reflexivity. Qed.
+
+Example C07_interp_ex_session :      (* reps 1, then target (A, 3) counted from the file: ids 3..6 *)
+  match session ex7_recipe [1%nat] (Some (Stopping.mkCrit "A" 3)) 3 None with
+  | Ok (rows, j) => (j, written "A" rows)
+  | Err _ => (0%nat, [])
+  end = (2%nat, [3; 4; 5; 6]).
+Proof. vm_compute. reflexivity. Qed.
